@@ -287,3 +287,26 @@ Definition run_mapping_table (x : sx) : sx :=
                   (run_mapping_model Z nat (fun _ _ => true) (fun _ _ => table_decide tb') t' c [] cs' 0%nat)
       | _, _, _, _ => sx_bad end
   | _ => sx_bad end.
+
+(* tag 1706: (tree drop flatten) -> everything the marker reconciliation
+   (marker_cache_v2.validate_marker_lookup: all_parents, children, parents) and the election
+   (children, as_leaves, leaves_to_compare) ask of the REDUCED tree, computed by the query
+   functions of Model/Tree.v on `reduce t cfg`:
+     (level-map  top-level-nodes  per level per node (node children parents)
+      as_leaves  leaf_pairs for every entry of all_parents, in that order)
+   level indices inside the answer are those of the reduced tree *)
+Definition run_reduced_queries (x : sx) : sx :=
+  match x with
+  | L [t; d; f] =>
+      match sx_tree t, sx_cfg d f with
+      | Some t', Some c =>
+          of_tres (fun r =>
+                     let u := fst r in
+                     L [of_Lnat (snd r);
+                        of_LZ (children u None);
+                        L (node_table_from u 0 u);
+                        of_list (of_list (of_pair of_Z of_LZ)) (as_leaves u);
+                        of_list (fun p => of_pairsZ (leaf_pairs u p)) (all_parents u)])
+                  (reduce t' c)
+      | _, _ => sx_bad end
+  | _ => sx_bad end.
